@@ -61,7 +61,10 @@ contract(GL + '_update_cluster_covariances', props=['C03', 'C05', 'C13', 'C14', 
                    # the optimiser output is symmetric positive definite (solver contracts + spectral calculus; with a floor
                    # eps > 0 this is the caller's obligation)
                    "spd_compressed(admm_result, model.arguments.min_meaningful_covariance)"],
-         ghost={'returns': dict(TH='optimized_inverse_covariance'), 'return_kinds': dict(TH='arr2[real]')},
+         ghost={'returns': dict(TH='optimized_inverse_covariance'), 'return_kinds': dict(TH='arr2[real]'),
+                'native_ensures': [("native:log-determinant-finite-and-equal-to-slogdet",
+                                    "math.isfinite(result.log_determinant) and result.log_determinant == logdet(result.train_inverse)"),
+                                   ("native:precision-symmetric", "bool(np.array_equal(result.train_inverse, result.train_inverse.T))")]},
          ensures=["fresh(result)", "fresh(result.train_inverse) and fresh(result.computed_covariance)", "same(result.train_inverse, TH)",
                   ("train-inverse-is-the-floored-reinflated-result", "forall(lambda i, j: implies(0 <= i and i < TH.shape[0] and 0 <= j and j < TH.shape[0], "
                    "TH[i, j] == floored(admm_result[tri_rank(imin(i, j), imax(i, j), TH.shape[0])], model.arguments.min_meaningful_covariance)))"),
